@@ -2,6 +2,7 @@
    runs the extracted Coq model, prints one result line per case. Hand written, trusted. *)
 open Model
 exception Case_timeout
+let budget = try int_of_string (Sys.getenv "SVGDX_DRIVER_BUDGET") with _ -> 60
 
 let explode s = List.init (String.length s) (String.get s)
 let implode l = let b = Buffer.create 16 in List.iter (Buffer.add_char b) l; Buffer.contents b
@@ -188,7 +189,7 @@ let () =
       match String.split_on_char '\t' line with
       | id :: kind :: fields ->
         (* a budget per case (whole documents with many loop passes are slow in the extracted model): TIMEOUT = no model answer *)
-        ignore (Unix.alarm 20);
+        ignore (Unix.alarm budget);
         (try handle id kind fields with
          | Stack_overflow -> Printf.printf "%s\tSTACKOVERFLOW\n" id
          | Case_timeout -> Printf.printf "%s\tTIMEOUT\n" id
